@@ -92,6 +92,9 @@ def main(ctx):
     corrupt_and_check("decode: lookup missed", "fibex", "decode", 30, "TraceDecode", lambda e: any(m["res"]["v"] == "ok" for m in e["msgs"]),
                       lambda e: [m for m in e["msgs"] if m["res"]["v"] == "ok"][0].__setitem__("res", {"v": "nometa"}))
     corrupt_and_check("fibex: hang", "fibex", "damage", 5, "TraceFibex", lambda e: True, lambda e: e["res"].__setitem__("v", "timeout"))
+    corrupt_and_check("filter file: a count", "filtercfg", "json", 20, "TraceFilterCfg", lambda e: e["op"] == "load" and e["res"]["v"] == "some", bump(["res", "cfg", "ctxc"]))
+    corrupt_and_check("filter file: refused", "filtercfg", "json", 20, "TraceFilterCfg", lambda e: e["op"] == "load" and e["res"]["v"] == "some", lambda e: e.__setitem__("res", {"v": "none"}))
+    corrupt_and_check("filter: processed level", "filtercfg", "json", 20, "TraceFilterCfg", lambda e: e["op"] == "process" and e["res"]["p"]["min"] != [], lambda e: e["res"]["p"].__setitem__("min", []))
 
     # a replay case with a falsified expected result must be reported
     casef = os.path.join(work, "case.ndjson")
